@@ -83,12 +83,13 @@ class _Continue(Exception):
 
 
 class Unknown:
-    __slots__ = ("sym", "neg", "meth")
+    __slots__ = ("sym", "neg", "meth", "kind")
 
-    def __init__(self, sym, neg=False, meth=False):
+    def __init__(self, sym, neg=False, meth=False, kind=None):
         self.sym = sym
         self.neg = neg
         self.meth = meth     # attribute of an unknown value (calling it is a pure method call, not a user callback)
+        self.kind = kind     # what is known of its type: "int" | "real" | "str" | "bool" | None (isinstance tests are then decided)
 
     def __repr__(self):
         return ("¬" if self.neg else "") + f"?{self.sym}"
@@ -347,16 +348,26 @@ class Oracle:
         return c
 
 
+class SkipPath(Exception):
+    """raised by a harness for a path that is outside what it studies (e.g. a constructor that rejects the chosen
+    configuration): the path is dropped, its alternatives are still explored"""
+
+
 def explore(run, max_paths=4000):
     """run(oracle) -> result; enumerates all choice sequences.  Returns [(labels, result)]"""
     out = []
     stack = [[]]
+    n_run = 0
     while stack:
         prefix = stack.pop()
         o = Oracle(prefix)
-        r = run(o)
-        out.append((list(o.labels), r))
-        if len(out) > max_paths:
+        n_run += 1
+        try:
+            r = run(o)
+            out.append((list(o.labels), r))
+        except SkipPath:
+            pass
+        if len(out) > max_paths or n_run > 4 * max_paths:
             raise PathLimit(f"more than {max_paths} paths")
         for i in range(len(prefix), len(o.taken)):
             for alt in range(o.taken[i] + 1, o.arity[i]):
@@ -1888,6 +1899,9 @@ class Interp:
                 raise PyRaise(ExcVal("SyntaxError", (str(ex),)))
             except (ValueError, RecursionError, MemoryError) as ex:
                 raise PyRaise(ExcVal(type(ex).__name__, (str(ex),)))
+        if name in ("math.isfinite", "math.isnan", "math.isinf", "isfinite", "isnan", "isinf") and len(args) == 1 and (isinstance(args[0], Unknown) or type(args[0]).__name__ in ("Lin", "Iv")):
+            # symbolic numbers stand for finite reals (tables that want NaN / inf pass the concrete value)
+            return name.endswith("isfinite")
         if name.startswith("heapq.") and args and isinstance(args[0], list):
             # heap operations on a list of concrete keys: the host implementation is the reference (in place, like Python's)
             import heapq as _hq
@@ -2270,6 +2284,11 @@ class Interp:
             if all(r is False for r in rs):
                 return False
             return self.fresh("isinstance")
+        if isinstance(v, Unknown) and v.kind is not None and isinstance(cls, (ExtRef, ClassRef)):
+            n_ = (cls.name.split(".")[-1] if isinstance(cls, ExtRef) else cls.ci.name)
+            table = {"int": {"int", "Integral", "Rational", "Real", "Complex", "Number", "object"}, "real": {"float", "Real", "Complex", "Number", "object"},
+                     "str": {"str", "object", "Sequence"}, "bool": {"bool", "int", "Integral", "Rational", "Real", "Complex", "Number", "object"}}
+            return n_ in table.get(v.kind, set())
         if isinstance(v, Unknown):
             cn = cls.ci.name if isinstance(cls, ClassRef) else getattr(cls, "name", "?")
             return Unknown(f"isinstance({v.sym}, {cn})")
@@ -2300,7 +2319,18 @@ class Interp:
             if isinstance(v, (Func, BoundBuiltin, ClassRef)):
                 return False
             if isinstance(t, type):
+                if type(v).__name__ in ("Lin", "Iv") and n in ("int", "float", "complex"):
+                    return n == "float" or self.fresh("isinstance")       # a symbolic number: a real; int-ness unknown
                 return isinstance(v, t)
+            if n in ("Number", "Complex", "Real", "Rational", "Integral") and (cls.name.startswith("numbers.") or cls.name == n):
+                # the numeric tower (numbers.Real …): bool and int are Integral, float is Real, symbolic numbers are reals
+                if type(v).__name__ in ("Lin", "Iv"):
+                    return True if n in ("Number", "Complex", "Real") else self.fresh("isinstance")
+                if n in ("Integral", "Rational"):
+                    return isinstance(v, int)
+                if n == "Real":
+                    return isinstance(v, (int, float))
+                return isinstance(v, (int, float, complex))
             if n in ("Mapping", "MutableMapping"):
                 return isinstance(v, dict)
             if n in ("Sequence",):
